@@ -3020,6 +3020,13 @@ static Type *union_decl(Token **rest, Token *tok) {
   // are already initialized to zero. We need to compute the
   // alignment and the size though.
   for (Member *mem = ty->members; mem; mem = mem->next) {
+    // An unnamed bit-field does not affect the alignment of the union
+    // and occupies only the bytes that its bits need.
+    if (mem->is_bitfield && !mem->name) {
+      ty->size = MAX(ty->size, (mem->bit_width + 7) / 8);
+      continue;
+    }
+
     if (!ty->is_packed && ty->align < mem->align)
       ty->align = mem->align;
     if (ty->is_packed && ty->align < mem->explicit_align)
